@@ -394,7 +394,7 @@ KeySeq6 == <<RepB(97, 127), RepB(97, 128)>>
 Keys6 == Range(KeySeq6)
 QKeySeq6 == <<RepB(97, 127), RepB(97, 128), RepB(65, 128), RepB(97, 127) \o <<98>>, RepB(97, 129), RepB(65, 127)>>
 \* a long and an empty string value (SetValuestring shrinking / growing by more than 64 bytes)
-StrSeq4 == <<<<>>, RepB(120, 70), <<120>>>>
+StrSeq4 == <<<<>>, RepB(120, 70), <<120>>, <<121>>>>        \* "x" and "y": same length, different text (in-place copy)
 Strs4 == Range(StrSeq4)
 QKeySeq1 == <<<<97>>, <<65>>>>
 QKeySeq2 == <<<<97>>, <<65>>, <<98>>>>
@@ -420,6 +420,7 @@ FeatO == {"obj", "cs", "ref", "dup", "sethelpers", "replace", "alias"}
 KindsO == {"str", "obj"}
 FeatSort == {"obj", "sort", "arr"}
 FeatSortMin == {"objadd", "sort"}
+FeatSortR == {"obj", "sort", "ref", "dup"}
 FeatDL == {"arr", "dup", "cycle", "fail"}
 FeatDF == {"arr", "dup", "fail"}
 FeatD4 == {"arr", "ptr", "ref", "dup", "sethelpers"}
